@@ -204,10 +204,12 @@ def posInBox (o : Ops α) : List (Dim α) → List α → Bool
   | D :: Ds, p :: ps => decide (o.ofInt 0 ≤ p) && decide (p ≤ D.len) && posInBox o Ds ps
   | _, _ => true
 
-/-- `sum(int(position[index] / self._cell_side_lengths[index]) * self._cumulative_product[index] ...)` with
+/-- `sum(self._cell_identifier(position[index], index) * self._cumulative_product[index] ...)` with
+`_cell_identifier(p, index) = min(int(p / self._cell_side_lengths[index]), self._cells_per_side[index] - 1)` and
 `_cell_side_lengths[index] = system_lengths[index] / cells_per_side[index]` -/
 def posIndex (o : Ops α) : List (Dim α) → List α → Int
-  | D :: Ds, p :: ps => o.toInt (p / (D.len / o.ofInt D.n)) + (D.n : Int) * posIndex o Ds ps
+  | D :: Ds, p :: ps =>
+    min (o.toInt (p / (D.len / o.ofInt D.n))) ((D.n : Int) - 1) + (D.n : Int) * posIndex o Ds ps
   | _, _ => 0
 
 /-- `CuboidCells.position_to_cell` -/
